@@ -14,7 +14,7 @@ RULE = ('generated pairs of JSON documents (string keys; list/dict/str/int/short
 TRUSTED_BASE = ['POSIX rename/remove semantics; partial writes at the OS level; a failure of the restoring rename itself is not modelled',
                 'faults are injected in-process by shadowing open/json_dumps inside deepdiff.serialization (no source hook)']
 ASSUMPTIONS = ['the end-to-end clause (patch reproduces B) is evaluated on the implementation; its theorem composes C01 and C14 and is not yet stated in Lean',
-               'document keys avoid the C09 findings (both quote kinds) and leading "__" (hidden by the CLI default ignore_private_variables)']
+               'document keys avoid the C09 findings (both quote kinds); documents with double-underscore keys are diffed with --include-private-variables (finding F41: the default hides them)']
 
 FAULTS = ['none', 'ser', 'open', 'write', 'close']
 
@@ -99,19 +99,24 @@ def run(ctx, impl_only=False):
     from deepdiff.serialization import json_dumps
     g = Gen(ctx.rng, scalars=[None, True, False, 0, 1, 2, 3, -1, 10, 1.5, 0.25, 'a', 'b', 'x y', '', 'é'],
             keys=['a', 'b', 'c', 'dd', 'k 1', 'é', "it's"], kinds=('dict', 'list'), max_depth=3, max_width=4)
+    gp = Gen(ctx.rng, scalars=[None, True, 0, 1, 2, 1.5, 'a', 'b', ''], keys=['a', 'b', '__p', '__q r', 'old_value', 'new_type'], kinds=('dict', 'list'), max_depth=3, max_width=4)
+    findings = {f['id']: f for f in core.load_findings(ID) if f.get('status') == 'open'}
     n = 160 if ctx.thorough() else 24
     tmp = tempfile.mkdtemp(prefix='verif_c20_')
     lines, metas = [], []
     try:
         for i in range(n):
-            a = g.container()
-            b = g.edits(a, ctx.rng.randint(1, 3)) if ctx.rng.random() < 0.9 else a
+            private = (i % 4 == 3)           # documents with double-underscore keys: the CLI compares them only with --include-private-variables
+            gg = gp if private else g
+            a = gg.container()
+            b = gg.edits(a, ctx.rng.randint(1, 3)) if ctx.rng.random() < 0.9 else a
             A, B, P = os.path.join(tmp, 'A.json'), os.path.join(tmp, 'B.json'), os.path.join(tmp, 'patch.pkl')
             with open(B, 'w') as f:
                 json.dump(b, f)
             with open(A, 'w') as f:
                 json.dump(a, f)
-            r = run_cli(['diff', A, B, '--create-patch'])
+            r = run_cli(['diff', A, B, '--create-patch'] + (['--include-private-variables'] if private else []))
+            ctx.count('documents:' + ('private_keys' if private else 'plain'))
             if r.exit_code != 0:
                 ctx.violate({'a': a, 'b': b}, 'diff --create-patch exited %s: %s' % (r.exit_code, r.output[-200:]))
                 continue
@@ -166,6 +171,22 @@ def run(ctx, impl_only=False):
                         metas.append((case, 'A=%s BAK=%s raised=%s' % (shot(gotA), shot(gotBak), 'T' if code != 0 else 'F')))
             if i % 5 == 0:
                 ctx.sample({'A': a, 'B': b})
+        # ---- boundary witness F41: without --include-private-variables a double-underscore key of B is not reproduced
+        A, B, P = os.path.join(tmp, 'A.json'), os.path.join(tmp, 'B.json'), os.path.join(tmp, 'patch.pkl')
+        with open(A, 'w') as f:
+            json.dump({'a': 1}, f)
+        with open(B, 'w') as f:
+            json.dump({'a': 1, '__x': 2}, f)
+        r = run_cli(['diff', A, B, '--create-patch'])
+        with open(P, 'wb') as f:
+            f.write(r.stdout_bytes)
+        run_cli(['patch', A, P])
+        ctx.evaluations += 1
+        ok = json.load(open(A)) == {'a': 1, '__x': 2}
+        if 'F41' in findings:
+            (ctx.known_not_reproduced if ok else ctx.known_reproduced).append('F41' if ok else 'F41: %s' % findings['F41']['what_fails'])
+        elif not ok:
+            ctx.violate({'witness': 'F41'}, 'boundary witness F41 fails and is not a listed finding')
     finally:
         shutil.rmtree(tmp, ignore_errors=True)
     if ctx.build_ok and not impl_only and lines:
